@@ -49,7 +49,10 @@ def uk_assert(E, st, fr, I, a):
     E.assert_counts[msg] = E.assert_counts.get(msg, 0) + 1
     if E.replaying: return       # replaying a prefix: checked by whoever explored it first
     if type(c) is int:
-        if not c: raise Violation('assert', msg)
+        if not c:
+            own = E.opts.get('own_prefix')
+            if own is None or msg.startswith(own) or not (msg[:1] == 'C' and msg[3:4] == ':'): raise Violation('assert', msg)
+            E.stats['foreign_assert_failures'] = E.stats.get('foreign_assert_failures', 0) + 1; raise PathEnd()
         return
     c = E.tobool(c); nc = z3.Not(c)
     if E.holds(st, nc): bad = st.vals
@@ -59,7 +62,9 @@ def uk_assert(E, st, fr, I, a):
     if bad is not None:
         good = E.feasible(st, c)
         st.vals = bad
-        E.report(st, 'assert', msg)
+        own = E.opts.get('own_prefix')
+        if own is None or msg.startswith(own) or not (msg[:1] == 'C' and msg[3:4] == ':'): E.report(st, 'assert', msg)
+        else: E.stats['foreign_assert_failures'] = E.stats.get('foreign_assert_failures', 0) + 1   # owned by another property's check
         if good is None: raise PathEnd()
         st.vals = good; E.assume(st, c)
 
